@@ -48,6 +48,8 @@ type Unit struct {
 	Txn  bool  `json:"txn"`
 	Cmds []Cmd `json:"cmds"`
 	Ping bool  `json:"ping,omitempty"` // a PING precedes the unit in the stream
+	// Reduced: carries a multi-key command of which the filters take out a key of another slot
+	Reduced bool `json:"reduced,omitempty"`
 }
 
 type Case struct {
@@ -264,6 +266,31 @@ func genCase(t *rapid.T) Case {
 		}
 		for j := 0; j < nc; j++ {
 			u.Cmds = append(u.Cmds, genCmd(t, g, i == badAt && !filtered))
+		}
+		if i != badAt && rapid.IntRange(0, 3).Draw(t, "reducedToOneSlot") == 0 {
+			// a multi-key DEL / UNLINK / MSET that the filters reduce: the key that is taken out (a reserved bookkeeping name, always
+			// filtered, or a key under a blacklisted prefix) lies in ANOTHER slot than the keys that remain - what is left is single-slot
+			foreign := []byte("redis-gunyu-checkpoint-old")
+			if len(c.Link.PrefixBlack) > 0 && rapid.Bool().Draw(t, "foreignByPrefix") {
+				other := rapid.SampledFrom(tags).Draw(t, "foreignTag")
+				foreign = []byte(c.Link.PrefixBlack[0] + "zz{" + other + "}")
+			}
+			var cmd Cmd
+			switch rapid.IntRange(0, 2).Draw(t, "reducedCmd") {
+			case 0:
+				cmd = Cmd{Name: "del", Args: []pbt.B{g.key(), foreign}}
+			case 1:
+				cmd = Cmd{Name: "unlink", Args: []pbt.B{foreign, g.key(), g.key()}}
+			default:
+				cmd = Cmd{Name: "mset", Args: []pbt.B{g.key(), b("v1"), foreign, b("v2")}}
+			}
+			at := rapid.IntRange(0, len(u.Cmds)).Draw(t, "reducedAt")
+			if !u.Txn {
+				u.Cmds = []Cmd{cmd}
+			} else {
+				u.Cmds = append(u.Cmds[:at], append([]Cmd{cmd}, u.Cmds[at:]...)...)
+			}
+			u.Reduced = true
 		}
 		c.Units = append(c.Units, u)
 	}
@@ -662,6 +689,12 @@ func check(t pbt.TB, c Case) {
 	}
 	st.Class("mode:" + c.Link.Mode)
 	st.ClassIf(len(c.Link.PrefixBlack) > 0, "filtered")
+	for _, u := range c.Units {
+		if u.Reduced {
+			st.Class("unit-reduced-to-one-slot-by-filters")
+			break
+		}
+	}
 	if facts["multi-key-unit"] || facts["must-refuse"] {
 		st.NonTrivial(cj)
 	} else {
